@@ -132,7 +132,7 @@ pub fn check_update(c: &UpdCase) -> V {
         .label_if(n_fail >= 1, "has_failing_test")
         .label_if(c.doc.front.is_some(), "front_matter")
         .label_if(!matches!(c.doc.tail, Tail::None), "unterminated_tail")
-        .label_if(c.doc.blocks.iter().any(|b| matches!(b, Blk::EmptyScrut { .. } | Blk::CommentOnlyScrut { .. })), "scrut_block_without_command");
+        .label_if(c.doc.blocks.iter().any(|b| matches!(b, Blk::EmptyScrut { .. } | Blk::CommentOnlyScrut { .. } | Blk::ExitOnlyScrut { .. })), "scrut_block_without_command");
 
     let updated = match run_update(text, &outcomes) {
         Ok(u) => u,
@@ -150,7 +150,7 @@ pub fn check_update(c: &UpdCase) -> V {
                 block_spans.push((r.spans[bi].0, r.spans[bi].1, Some(ti)));
                 ti += 1;
             }
-            Blk::EmptyScrut { .. } | Blk::CommentOnlyScrut { .. } => {
+            Blk::EmptyScrut { .. } | Blk::CommentOnlyScrut { .. } | Blk::ExitOnlyScrut { .. } => {
                 block_spans.push((r.spans[bi].0, r.spans[bi].1, None));
             }
             _ => {}
@@ -472,4 +472,38 @@ pub fn property() -> Property {
             }),
         ],
     }
+}
+
+/// fuzz entry: update a parsed document where every command "printed nothing and exited 0":
+/// no crash, the updated text parses to the same commands, a second update changes nothing
+pub fn fuzz_update(text: &str, tests: &[TestCase]) -> Option<String> {
+    if tests.is_empty() {
+        return None;
+    }
+    let outputs: Vec<Output> = tests
+        .iter()
+        .map(|_| Output {
+            stdout: vec![].into(),
+            stderr: vec![].into(),
+            exit_code: ExitStatus::Code(0),
+        })
+        .collect();
+    let outcomes = match guard(|| outcomes_for(tests, &outputs)) {
+        Ok(o) => o,
+        Err(p) => return Some(format!("validate crashed: {p}")),
+    };
+    let updated = match run_update(text, &outcomes) {
+        Ok(u) => u,
+        Err(m) => return Some(m),
+    };
+    let tests2 = match md_parse(&updated) {
+        Ok(Ok((_, t))) => t,
+        Ok(Err(e)) => return Some(format!("updated document does not parse: {e:#}\n--- original:\n{text}\n--- updated:\n{updated}")),
+        Err(p) => return Some(format!("parser crashed on the updated document: {p}")),
+    };
+    let cmds = |t: &[TestCase]| t.iter().map(|x| x.shell_expression.clone()).collect::<Vec<_>>();
+    if cmds(tests) != cmds(&tests2) {
+        return Some(format!("update changes the commands {:?} to {:?}\n--- original:\n{text}\n--- updated:\n{updated}", cmds(tests), cmds(&tests2)));
+    }
+    None
 }
